@@ -43,6 +43,10 @@ type propCase struct {
 	Display  bool   `json:"display,omitempty"`
 	Required int    `json:"required,omitempty"` // 0 absent, 1 true, 2 false
 	Extra    bool   `json:"extra,omitempty"`
+	// OwnID: an `id` key under `type:` of a type that is not a reference (an object type written in place carries
+	// its ID, and nothing stops any other type description from having the key); IDLast: the id key follows type_id
+	OwnID  string `json:"own_id,omitempty"`
+	IDLast bool   `json:"id_last,omitempty"`
 }
 
 type objCase struct {
@@ -92,10 +96,19 @@ func (c docCase) yaml() string {
 				fmt.Fprintf(&sb, "              display:\n                name: \"Name of %s\"\n                description: |\n                  Some text: with colon\n", p.Name)
 			}
 			sb.WriteString("              type:\n")
+			idLine := ""
 			if p.TypeID == "ref" {
-				fmt.Fprintf(&sb, "                id: %s\n", key(p.RefID, true))
+				idLine = fmt.Sprintf("                id: %s\n", key(p.RefID, true))
+			} else if p.OwnID != "" {
+				idLine = fmt.Sprintf("                id: %s\n", key(p.OwnID, true))
+			}
+			if !p.IDLast {
+				sb.WriteString(idLine)
 			}
 			fmt.Fprintf(&sb, "                type_id: %s\n", p.TypeID)
+			if p.IDLast {
+				sb.WriteString(idLine)
+			}
 			if p.Extra {
 				sb.WriteString("                min: 0\n                items:\n                  type_id: string\n")
 			}
@@ -356,6 +369,21 @@ func genDoc() *rapid.Generator[docCase] {
 					Required: rapid.IntRange(0, 2).Draw(t, "required"), Extra: rapid.IntRange(0, 3).Draw(t, "extra") == 0}
 				if withMap && rapid.IntRange(0, 2).Draw(t, "useMap") == 0 {
 					p.TypeID = "map"
+				}
+				p.IDLast = rapid.IntRange(0, 3).Draw(t, "idLast") == 0
+				if p.TypeID != "ref" && rapid.IntRange(0, 3).Draw(t, "ownID") == 0 {
+					switch rapid.IntRange(0, 2).Draw(t, "ownIDKind") {
+					case 0:
+						p.OwnID = rapid.SampledFrom([]string{"integer", "float", "string", "ref", "object"}).Draw(t, "ownIDWord")
+					case 1:
+						if len(c.Objects) > 0 {
+							p.OwnID = rapid.SampledFrom(c.Objects).Draw(t, "ownIDObj").Name
+							break
+						}
+						fallthrough
+					default:
+						p.OwnID = genIdent().Draw(t, "ownIDIdent")
+					}
 				}
 				if p.TypeID == "ref" {
 					if len(c.Objects) > 0 && rapid.Bool().Draw(t, "refExisting") {
